@@ -38,6 +38,13 @@ var c03ServerPeers = []c03Peer{
 	{"denied-after-auth", peerDev{Denied: true}},
 	{"postauth-in-clear", peerDev{PostAuthClear: true}},
 	{"postauth-with-secret-marker", peerDev{PostAuthSecret: true}},
+	// answers that are not the protocol's "YES" / "NO" spelling: whichever way the
+	// endpoint reads them, all of its decisions must read them the same way
+	{"auth-Yes-mixed-case", peerDev{AuthAnswer: "Yes"}},
+	{"auth-yes-lower-case", peerDev{AuthAnswer: "yes"}},
+	{"auth-TRUE", peerDev{AuthAnswer: "TRUE"}},
+	{"enc-Yes-mixed-case", peerDev{EncAnswer: "Yes"}},
+	{"both-yes-lower-case", peerDev{AuthAnswer: "yes", EncAnswer: "yes"}},
 }
 
 var c03ClientPeers = []c03Peer{
